@@ -123,7 +123,7 @@ Section Builder.
               | Some pn => Ok (pn ++ [46] ++ n_name n)
               | None => Ok (n_name n)
               end
-            else Panic (s2b "ImportNames.TypeName: named type without package (nil *types.Package)")
+            else Ok (n_name n)        (* predeclared type (error): no package *)
         | None => Ok (s2b "invalid type")
         end
     | _ => Ok (type_string E t)
@@ -135,7 +135,7 @@ Section Builder.
         match get_named E i with
         | Some n =>
             if n_has_pkg n then Ok (match lookup_name d (n_pkg_path n) with Some _ => true | None => false end)
-            else Panic (s2b "ImportNames.IsExternal: named type without package (nil *types.Package)")
+            else Ok false
         | None => Ok false
         end
     | _ => Ok false
@@ -157,21 +157,25 @@ Section Builder.
     | _ => true
     end.
 
-  (** NewTypecast *)
+  (** NewTypecast: the conversion operator for target [t]; "( *T)" form for pointer targets *)
+  Definition cast_operator (t : ty) (name : str) : str :=
+    if is_ptr t then s2b "(*" ++ name ++ s2b ")" else name.
+
   Definition new_typecast (t : ty) (inner : node) : outcome (option node) :=
     match deref_ptr t with
     | TNamed i =>
         match get_named E i with
         | Some n =>
-            if existsb (fun no => str_eqb (fst no) (n_name n)) (d_pkgscope d) then Ok (Some (NCast inner t (n_name n)))
+            (* scope.Lookup(name) == typ.Obj(): the type is declared in the setup package itself *)
+            if n_has_pkg n && str_eqb (n_pkg_path n) (d_pkg_path d) then Ok (Some (NCast inner t (cast_operator t (n_name n))))
             else if negb (n_has_pkg n) then Panic (s2b "NewTypecast: named type without package")
             else match lookup_name d (n_pkg_path n) with
-                 | Some pn => Ok (Some (NCast inner t (pn ++ [46] ++ n_name n)))
-                 | None => Ok (Some (NCast inner t (n_pkg_name n ++ [46] ++ n_name n)))
+                 | Some pn => Ok (Some (NCast inner t (cast_operator t (pn ++ [46] ++ n_name n))))
+                 | None => Ok (Some (NCast inner t (cast_operator t (n_pkg_name n ++ [46] ++ n_name n))))
                  end
         | None => Ok None
         end
-    | TBasic _ _ => Ok (Some (NCast inner t (type_string E t)))
+    | TBasic _ nm => Ok (Some (NCast inner t (cast_operator t nm)))
     | _ => Ok None
     end.
 
@@ -200,7 +204,7 @@ Section Builder.
       match slice_elem (expr_type lhs), slice_elem (expr_type rhs) with
       | Some le, Some re =>
           if assignable E re le then
-            if is_basic re then ret (Some (ASlice lhs rhs (s2b "[]" ++ type_string E le)))
+            if is_basic re && identical false le re then ret (Some (ASlice lhs rhs (s2b "[]" ++ type_string E le)))
             else doR tn <- lift (type_name le); ret (Some (ASliceLoop lhs rhs (s2b "[]" ++ tn)))
           else if o_typecast o && convertible E re le then
             doR tn <- lift (type_name le); ret (Some (ASliceCast lhs rhs (s2b "[]" ++ tn) tn))
